@@ -17,7 +17,8 @@ CONSTANTS MaxRec          \* largest legal record body (2^14+256 in the code)
 VARIABLES crecs,          \* Seq of [t : {"HS","CH","APP","OTHER","BIG"}, len : Nat, out : Nat]  (out: length of the replacement of a retried hello)
           brecs,          \* Seq of [t : {"SH","HRR","APP","HS","BAD","BIG"}, len : Nat]
           cutAt, cutKind, \* the client transport ends after cutAt bytes with "eof" or "err"
-          firstIn, firstOut, accepted    \* first hello: bytes consumed by NewConn, bytes it turned into, ECH accepted?
+          firstIn, firstOut, accepted,   \* first hello: bytes consumed by NewConn, bytes it turned into, ECH accepted?
+          bigHdr                         \* implementation choice: is the header of an over-long record handed on before the decode error?
 \* read side
 VARIABLES tpos,           \* bytes consumed from the client transport
           ri,             \* next client record to be read while inspecting
@@ -33,13 +34,14 @@ VARIABLES wtaken,         \* backend bytes accepted by Write calls
           bi,             \* next backend record not yet forwarded while inspecting
           wPass, armed, wErr, lastWrite
 
-scen  == <<crecs, brecs, cutAt, cutKind, firstIn, firstOut, accepted>>
+scen  == <<crecs, brecs, cutAt, cutKind, firstIn, firstOut, accepted, bigHdr>>
 rvars == <<tpos, ri, lo, hi, rErr, outTotal, outpos, rPass, repl, lastRead>>
 wvars == <<wtaken, wfwd, bi, wPass, armed, wErr, lastWrite>>
 vars  == <<scen, rvars, wvars>>
 
 RECURSIVE SumIn(_, _)
 SumIn(rs, k) == IF k = 0 THEN 0 ELSE SumIn(rs, k - 1) + 5 + (IF rs[k].t = "BIG" THEN 0 ELSE rs[k].len)
+HasBig(rs) == \E i \in DOMAIN rs : rs[i].t = "BIG"
 ClientTotal == firstIn + SumIn(crecs, Len(crecs))
 BackendTotal == SumIn(brecs, Len(brecs))
 Min(a, b) == IF a < b THEN a ELSE b
@@ -57,7 +59,7 @@ Fill ==
   IF ri > Len(crecs) \/ cutAt < tpos + 5      \* no further complete header: the cut truncates it
   THEN [tpos |-> cutAt, ri |-> ri, add |-> cutAt - tpos, err |-> cutKind, pass |-> rPass, repl |-> FALSE]
   ELSE LET r == crecs[ri] IN
-    IF r.t = "BIG" THEN [tpos |-> tpos + 5, ri |-> ri, add |-> 5, err |-> "decode", pass |-> rPass, repl |-> FALSE]   \* header kept, decode error
+    IF r.t = "BIG" THEN [tpos |-> tpos + 5, ri |-> ri, add |-> IF bigHdr THEN 5 ELSE 0, err |-> "decode", pass |-> rPass, repl |-> FALSE]
     ELSE IF cutAt < tpos + 5 + r.len THEN [tpos |-> cutAt, ri |-> ri, add |-> cutAt - tpos, err |-> cutKind, pass |-> rPass, repl |-> FALSE]
     ELSE IF r.t = "APP" THEN [tpos |-> tpos + 5 + r.len, ri |-> ri + 1, add |-> 5 + r.len, err |-> "none", pass |-> TRUE, repl |-> FALSE]
     ELSE IF r.t = "CH" /\ armed THEN [tpos |-> tpos + 5 + r.len, ri |-> ri + 1, add |-> r.out, err |-> "none", pass |-> TRUE, repl |-> TRUE]
@@ -118,7 +120,7 @@ Write(k) ==
 \* (bi is meaningful only while wtaken # wfwd or ~wPass)
 
 \* ------------------------------------------------------------------ properties
-Conserved       == outpos + (hi - lo) = outTotal /\ lo <= hi                 \* nothing lost, nothing duplicated
+Conserved       == outpos + (hi - lo) = outTotal /\ lo <= hi /\ bigHdr \in BOOLEAN                 \* nothing lost, nothing duplicated
 WriteIsPrefix   == wfwd <= wtaken
 \* strictly less than one record is withheld from the client
 OneRecordWithheld ==
